@@ -312,8 +312,11 @@ pub fn run(case: &TwCase, viols: &mut Vec<Violation>) -> Out {
                 let gap = f_at - polished.f;
                 let gap_tol = 1e-8 * f_at.abs().max(1.0);
                 if polished.f.is_finite() && gap > gap_tol {
+                    // identity link on a positive-support distribution: the line search met a NaN cost (mean <= 0)
+                    // and the solver gave up on the spot, handing back the documented start as if it had converged
+                    let kind = if isolated && theta == start { "returns_start_point_unchanged" } else { "not_stationary" };
                     viols.push(Violation::new(
-                        format!("tweedie.fit.not_stationary.{}.{}", power_class(case.power), case.link),
+                        format!("tweedie.fit.{}.{}.{}", kind, power_class(case.power), case.link),
                         format!(
                             "returned coef {:?} intercept {}: own gradient norm of 1/2(deviance + alpha|w|^2) is {:.3e} > 10 x tol {:.1e} AND an own Newton descent from that point lowers the objective from {:.12} to {:.12} (gap {:.3e} > {:.1e}; stationary point {:?}); own Newton from the documented start reaches {:.12}",
                             w, b, gn, case.tol, f_at, polished.f, gap, gap_tol, polished.x, own.f
